@@ -823,6 +823,9 @@ func (t *Topic) handleLeaveRequest(msg *ClientComMessage, sess *Session) {
 				sess.queueOut(NoErrReply(msg, now))
 			}
 		}
+	} else if msg.init && !asUid.IsZero() {
+		// The session is not attached to the topic on behalf of this user: nothing to leave.
+		sess.queueOut(InfoNotJoined(msg.Id, msg.Original, now))
 	}
 }
 
